@@ -68,6 +68,7 @@ func GenFlow(rng *rand.Rand, o GenOpts) *FlowP {
 	}
 	consumed := map[int]int{}
 	nOther := 0
+	usedOther := map[int]bool{}
 	var avail []int
 	for i, n := 0, rng.Intn(4); i < n; i++ {
 		t := newType()
@@ -98,7 +99,7 @@ func GenFlow(rng *rand.Rand, o GenOpts) *FlowP {
 		// mention types that package can name: types of a third package the
 		// program file does not import, and (through type parameters) local
 		// named integer types. Every other task cannot mention the former.
-		isAux := !o.Modifier && !o.NoOther && !f.Generic && rng.Intn(5) == 0
+		isAux := !o.NoOther && !f.Generic && rng.Intn(5) == 0
 		okFor := func(ty int) bool {
 			k := f.Types[ty].Kind
 			if isAux {
@@ -169,14 +170,23 @@ func GenFlow(rng *rand.Rand, o GenOpts) *FlowP {
 			}
 			t.WrapFn = f.WrapArgs && rng.Intn(3) == 0
 		}
+		if isAux && o.Modifier {
+			t.Form = FormAux
+			t.Ctx = true
+		}
 		if f.Emitters > 0 && rng.Intn(10) < 6 && !o.AutoInstr {
 			t.Instr = true
 		}
 		for k := 0; k < nout; k++ {
 			ty := newType()
 			if isAux {
-				if nOther < 8 && rng.Intn(10) < 7 {
-					f.Types[ty] = TypeSpec{Kind: TOther, X: nOther}
+				if nOther < NumOther && rng.Intn(10) < 7 {
+					x := rng.Intn(NumOther)
+					for usedOther[x] {
+						x = (x + 1) % NumOther
+					}
+					usedOther[x] = true
+					f.Types[ty] = TypeSpec{Kind: TOther, X: x}
 					nOther++
 				} else {
 					f.Types[ty] = TypeSpec{Kind: TNamed}
@@ -208,7 +218,12 @@ func GenFlow(rng *rand.Rand, o GenOpts) *FlowP {
 		}
 		if len(cands) == 0 {
 			// only aux tasks exist: consume it in a predicate-free extra task
-			f.Tasks = append(f.Tasks, TaskP{ID: len(f.Tasks), In: []int{p}, Form: FormLiteral})
+			extra := TaskP{ID: len(f.Tasks), In: []int{p}, Form: FormLiteral}
+			if o.Modifier {
+				// modifier mode is specified for plain tasks only: no cff.Invoke(true), so the task gets a result
+				extra.Out = []int{newType()}
+			}
+			f.Tasks = append(f.Tasks, extra)
 			consumed[p]++
 			continue
 		}
